@@ -360,6 +360,9 @@ def rule_R5(piece, toks, loops, src, loop_specs):
             continue
         if _is_idiom_for(src, alltoks, kw, k, lp):
             continue
+        etext0 = src.text[expr[0].start:expr[-1].end]
+        if re.fullmatch(r'[\w\.]+(\.as_bytes\(\))?\.iter\(\)', etext0) or re.fullmatch(r'[\w\.]+\.as_bytes\(\)', etext0):
+            continue  # slice iterator: natively supported by Verus (ghost label via R6)
         pat = src.text[alltoks[kw + 1].start:alltoks[k - 1].end]
         etext = src.text[expr[0].start:expr[-1].end]
         it = 'verif_it%d' % n
@@ -398,6 +401,16 @@ def rule_R6(piece, loops, src):
         t = alltoks[lp['kw'] + 1]
         if t.text == '_' and alltoks[lp['kw'] + 2].text == 'in':
             piece.replace(t.start, t.end, 'verif_i%d' % n, 'R6')
+        elif not lp.get('r5') and not lp.get('header_done'):
+            # ghost label for the iterator so that the invariant can mention its position (ghost only)
+            kw = lp['kw']
+            d = alltoks[kw].depth
+            k = kw + 1
+            while not (alltoks[k].text == 'in' and alltoks[k].depth == d):
+                k += 1
+            expr = alltoks[k + 1:lp['open']]
+            if not _top_level_has_range(expr):
+                piece.insert(alltoks[k].end, ' verif_it%d:' % n, 'ghost:loop%d-label' % n)
 
 
 def rule_R7(piece, src, start, end):
@@ -457,6 +470,13 @@ def rule_R8(piece, src, start, end, loops, loop_specs, r9=False):
                           % (n, mp, n, n, sp, k, n, n, v, mp, k), 'R8:map_iter')
             lp['header_done'] = True
             continue
+
+
+def rule_R10(piece, src, start, end):
+    """error-value abstraction: `return Err(EXPR);` where EXPR builds a String / PyErr -> `return Err(verif_err());`
+    (the error payload is irrelevant to the contracts; only the Ok/Err distinction is specified)"""
+    for m in re.finditer(r'return Err\((?:"[^"]*"\.to_string\(\)|PyValueError::new_err\("[^"]*"\))\);', src.text[start:end]):
+        piece.replace(start + m.start(), start + m.end(), 'return Err(verif_err());', 'R10')
 
 
 R9_LITS = {'0_f64': 'F64::lit_0()', '1_f64': 'F64::lit_1()', '2.0': 'F64::lit_2()', '0.0': 'F64::lit_0()'}
@@ -672,6 +692,8 @@ def _extract_fn(src, first, o, c, impl_info, rules, sections, opts, entry, repor
         rule_R7(piece, src, s, e)
     if 'R9' in rules:
         rule_R9(piece, ftoks)
+    if 'R10' in rules:
+        rule_R10(piece, src, s, e)
 
     # R4 + signature ghost text
     sig_toks = toks[first:o]
